@@ -752,10 +752,8 @@ func init() {
 			prefix := st.F[fieldIndex(pT, "prefix")]
 			isVrt := parent.T != nil && isNamed(parent.T, vrtPkg, "Store")
 			if !isVrt || start.P.O != nil || end.P.O != nil || start.Len != 0 || end.Len != 0 {
-				// fall back to the SDK code
-				fn := ex.prog.ImportedPackage(pfx).Prog.FuncValue(nil)
-				_ = fn
-				panic(engineErr("prefix.Store iterator with explicit bounds or a foreign parent store"))
+				return notHandled{} // explicit bounds or a foreign parent store: run the SDK code
+
 			}
 			mset := ex.prog.MethodSets.MethodSet(parent.T)
 			sel := mset.Lookup(nil, "PrefixIter")
